@@ -203,6 +203,100 @@ def generated_api_leg(rep, tier):
     rep.extra["generated_api_calls"] = 2 * len(seqs)
 
 
+FLUSH_LIB = r"""
+use core::fmt::Write as _;
+fn text(n: u8) -> String { (0..n).map(|i| (b'a' + i % 26) as char).collect() }
+#[diplomat::bridge]
+mod ffi {
+    use diplomat_runtime::DiplomatWrite;
+    use core::fmt::Write as _;
+    #[diplomat::opaque]
+    pub struct Fl(u8);
+    impl Fl {
+        pub fn make() -> Box<Fl> { Box::new(Fl(0)) }
+        pub fn plain(&self, n: u8, w: &mut DiplomatWrite) { let _ = w.write_str(&crate::text(n)); }
+        pub fn checked(&self, n: u8, fail: bool, w: &mut DiplomatWrite) -> Result<(), ()> { let _ = w.write_str(&crate::text(n)); if fail { Err(()) } else { Ok(()) } }
+        pub fn maybe(&self, n: u8, w: &mut DiplomatWrite) -> Option<()> { let _ = w.write_str(&crate::text(n)); Some(()) }
+        pub fn counted(&self, n: u8, w: &mut DiplomatWrite) -> usize { let _ = w.write_str(&crate::text(n)); n as usize }
+        pub fn counted_res(&self, n: u8, w: &mut DiplomatWrite) -> Result<u32, ()> { let _ = w.write_str(&crate::text(n)); Ok(n as u32) }
+    }
+}
+"""
+
+FLUSH_DRIVER = r"""
+#include <stdio.h>
+#include <stdlib.h>
+#include <string.h>
+#include <stdbool.h>
+#include <stdint.h>
+#include "diplomat_runtime.h"
+/* the functions as the proc macro compiles them (self, arguments, the writer last) */
+typedef struct Fl Fl;
+Fl* Fl_make(void);
+void Fl_destroy(Fl*);
+void Fl_plain(const Fl*, uint8_t, DiplomatWrite*);
+typedef struct { bool is_ok; } R0;
+R0 Fl_checked(const Fl*, uint8_t, bool, DiplomatWrite*);
+R0 Fl_maybe(const Fl*, uint8_t, DiplomatWrite*);
+size_t Fl_counted(const Fl*, uint8_t, DiplomatWrite*);
+typedef struct { union { uint32_t ok; }; bool is_ok; } R1;
+R1 Fl_counted_res(const Fl*, uint8_t, DiplomatWrite*);
+static int flushes; static size_t flushed_len;
+static void my_flush(DiplomatWrite* w) { flushes++; flushed_len = w->len; }
+static bool my_grow(DiplomatWrite* w, size_t cap) { (void)w; (void)cap; return false; }
+static int bad;
+static void call(const Fl* f, int which, uint8_t n, DiplomatWrite* w) {
+  switch (which) { case 0: Fl_plain(f, n, w); break; case 1: Fl_checked(f, n, false, w); break; case 2: Fl_checked(f, n, true, w); break;
+                   case 3: Fl_maybe(f, n, w); break; case 4: Fl_counted(f, n, w); break; default: Fl_counted_res(f, n, w); } }
+static const char* NAMES[] = {"plain", "checked(ok)", "checked(err)", "maybe", "counted", "counted_res"};
+int main(void) {
+  Fl* f = Fl_make();
+  for (int which = 0; which < 6; which++) for (int n = 0; n <= 9; n += 3) {
+    /* a fixed writer of exactly n+1 bytes: flushing puts the NUL on the last byte of the caller's buffer */
+    char* b = malloc((size_t)n + 1); memset(b, 0x55, (size_t)n + 1);
+    DiplomatWrite w = diplomat_simple_write(b, (size_t)n + 1);
+    call(f, which, (uint8_t)n, &w);
+    if (b[n] != 0) { printf("{\"method\":\"%s\",\"n\":%d,\"what\":\"fixed buffer not NUL-terminated after the call\"}\n", NAMES[which], n); bad++; }
+    free(b);
+    /* a caller-supplied writer: its flush callback runs exactly once, after the text is complete */
+    char store[16]; DiplomatWrite c; memset(&c, 0, sizeof c); c.buf = store; c.len = 0; c.cap = sizeof store; c.flush = my_flush; c.grow = my_grow;
+    flushes = 0; flushed_len = (size_t)-1;
+    call(f, which, (uint8_t)n, &c);
+    if (flushes != 1 || flushed_len != (size_t)n) { printf("{\"method\":\"%s\",\"n\":%d,\"what\":\"foreign flush not called exactly once with the final length\",\"flushes\":%d,\"len\":%ld}\n", NAMES[which], n, flushes, (long)flushed_len); bad++; }
+  }
+  Fl_destroy(f);
+  printf("{\"done\":true,\"bad\":%d}\n", bad);
+  return 0;
+}
+"""
+
+
+def flush_leg(rep):
+    """Flush of Write.tla: the macro flushes the writer after EVERY method that takes one -- whatever the method returns.  The
+    functions are declared the way the macro compiles them (the tool's headers drop the writer of value-returning methods: known
+    finding of C01), called with an exactly-sized fixed buffer and with a caller-supplied writer that counts its flush callbacks."""
+    wd = rep.wd
+    b = lib.build_bridge("c12flush", FLUSH_LIB)
+    if not b["ok"]:
+        raise lib.ToolError("c12flush bridge does not build:\n" + b["stderr"][-2500:])
+    dp = os.path.join(wd, "flush_driver.c")
+    open(dp, "w").write(FLUSH_DRIVER)
+    exe = os.path.join(wd, "flush_driver")
+    inc = os.path.join(wd, "gen_c")
+    p = lib.sh(["gcc", "-std=c11", "-g", "-O0", "-fsanitize=address,undefined", "-I", inc, dp, b["staticlib"], "-lpthread", "-ldl", "-lm", "-o", exe], timeout=600)
+    if p.returncode != 0:
+        raise lib.ToolError("flush driver does not compile: " + p.stderr[-1500:])
+    pr = lib.sh([exe], env=dict(os.environ, ASAN_OPTIONS="detect_leaks=1"), timeout=120)
+    rows = [json.loads(l) for l in pr.stdout.splitlines() if l.startswith("{")]
+    if pr.returncode != 0 or not rows or not rows[-1].get("done"):
+        rep.violation({"leg": "flush", "what": "driver aborted or the sanitizer reported an error"}, {"rc": pr.returncode, "stderr": pr.stderr[-2500:]})
+        return
+    for r in rows[:-1]:
+        rep.violation({"leg": "flush", "method": r["method"], "what": r["what"]}, r)
+    rep.evaluations += 48
+    rep.extra["flush_calls"] = 48
+
+
 def run(rep, tier):
     rep.rule = ("behaviours = TLC-enumerated write/grow/flush histories (3 writer kinds + Rust-owned) replayed "
                 "state-by-state on diplomat-runtime; non-trivial = behaviour containing at least one grow() "
@@ -216,5 +310,6 @@ def run(rep, tier):
     n = replay_leg(rep, tier)
     trace_leg(rep, tier)
     generated_api_leg(rep, tier)
+    flush_leg(rep)
     rep.exhaustive = True
     rep.extra["exhaustive_scope"] = "all behaviours of the bounded model in the beh config (%d) were replayed" % n
